@@ -1123,6 +1123,102 @@ fn witness_detail(cl: &Class, devs: &[Dev], res: &CaseResult, human: &str) -> Va
     })
 }
 
+// =============================================================================================
+// CLI family: the file the real command line leaves on disk
+
+/// For every class: the base file and the file with one more script-level deviation are compiled by the real command
+/// line (`truth-verif as-truth-core …` = `cli_def::truth_main`) into an output path that is (a) fresh, (b) already
+/// occupied by a LONGER file (the output of an earlier compile of a bigger source, and 64 KiB of filler), (c) occupied
+/// by a shorter file; and twice in a row into one path.  What is on disk afterwards must be byte-identical to what the
+/// in-memory driver produced for the same source (which is the file every other C03 comparison is made on), and must
+/// read back with truth.  A failed compile must not leave a file that differs from "nothing written"... (not required
+/// by the property; only counted).
+struct CliOutc { class: String, evals: u64, fails: Vec<(String, Value)> }
+
+fn cli_family(cls: &[Class]) -> Vec<CliOutc> {
+    let items: Vec<usize> = (0..cls.len()).collect();
+    par_map(&items, None, |_, &ci| {
+        let cl = &cls[ci];
+        let tool = Tool::new(cl.kind, cl.game);
+        let mut o = CliOutc { class: cl.name.to_string(), evals: 0, fails: vec![] };
+        let dir = drive::scratch_dir().join(format!("c03-cli-{}", cl.name));
+        let _ = std::fs::create_dir_all(&dir);
+        // sources: the base file, and a bigger one (more items) used to occupy the output path first
+        let small = render(cl, &[]);
+        let big_field = cl.fields.iter().find(|f| f.kind == FK::Count && f.name != "n_timelines");
+        let big = big_field.map(|f| render(cl, &[Dev { field: f.name.clone(), value: 4 }]));
+        let write_in = |name: &str, r: &Rendered| -> (String, Option<String>) {
+            let p = dir.join(format!("{name}.spec")); std::fs::write(&p, &r.src).expect("write source");
+            let m = if r.mapfile.is_empty() { None } else { let mp = dir.join(format!("{name}.map")); std::fs::write(&mp, &r.mapfile).expect("write mapfile"); Some(mp.display().to_string()) };
+            (p.display().to_string(), m)
+        };
+        let cli_compile = |inp: &(String, Option<String>), outp: &std::path::Path| -> drive::CliOut {
+            let mut args = tool.cli("compile");
+            args.extend([inp.0.clone(), "-o".into(), outp.display().to_string()]);
+            if let Some(m) = &inp.1 { args.extend(["-m".into(), m.clone()]); }
+            drive::run_cli(&args, &[])
+        };
+        let inproc = |r: &Rendered| -> Option<Vec<u8>> {
+            let mapfiles: Vec<&str> = if r.mapfile.is_empty() { vec![] } else { vec![r.mapfile.as_str()] };
+            drive::compile(tool, r.src.as_bytes(), &CompileOpts { mapfiles, ..Default::default() }).bytes
+        };
+        let small_in = write_in("small", &small);
+        let want_small = inproc(&small);
+        let big_in = big.as_ref().map(|b| write_in("big", b));
+        let want_big = big.as_ref().and_then(|b| inproc(b));
+        let mut judge = |o: &mut CliOutc, scenario: &str, out: &drive::CliOut, path: &std::path::Path, want: &Option<Vec<u8>>, src: &str| {
+            o.evals += 1;
+            let on_disk = std::fs::read(path).ok();
+            let det = |what: String| json!({"family": "cli", "class": cl.name, "scenario": scenario, "what": what, "source": src,
+                "cli_status": out.status, "cli_stderr": String::from_utf8_lossy(&out.stderr).chars().take(600).collect::<String>(),
+                "bytes_on_disk": on_disk.as_ref().map(|b| b.len()), "bytes_expected": want.as_ref().map(|b| b.len())});
+            match (out.status, want) {
+                (0, Some(w)) => {
+                    match &on_disk {
+                        None => o.fails.push((format!("C03:cli:no-output-file:{}:{scenario}", cl.name), det("exit status 0 but no output file".into()))),
+                        Some(d) if d != w => {
+                            let what = if d.len() > w.len() && d[..w.len()] == w[..] { format!("the file on disk is the requested file followed by {} stale bytes", d.len() - w.len()) }
+                                else { format!("the file on disk ({} bytes) differs from the file the same source compiles to in memory ({} bytes)", d.len(), w.len()) };
+                            o.fails.push((format!("C03:cli:file-on-disk-differs:{}:{scenario}", cl.name), det(what)));
+                        },
+                        Some(d) => {
+                            // and it reads back through the real command line
+                            let mut args = tool.cli("decompile"); args.push(path.display().to_string());
+                            if let Some(m) = &small_in.1 { args.extend(["-m".into(), m.clone()]); }
+                            let r = drive::run_cli(&args, &[]);
+                            o.evals += 1;
+                            if r.status != 0 { o.fails.push((format!("C03:cli:unreadable-output:{}:{scenario}", cl.name), det(format!("decompile of the written file failed: {}", String::from_utf8_lossy(&r.stderr).chars().take(300).collect::<String>())))); }
+                            let _ = d;
+                        },
+                    }
+                },
+                (0, None) => o.fails.push((format!("C03:cli:driver-disagrees:{}:{scenario}", cl.name), det("the command line succeeded on a source the in-memory driver rejects".into()))),
+                (_, Some(_)) => o.fails.push((format!("C03:cli:driver-disagrees:{}:{scenario}", cl.name), det("the command line failed on a source the in-memory driver compiles".into()))),
+                (_, None) => {},
+            }
+        };
+        // (a) fresh path
+        let p = dir.join("fresh.bin");
+        let out = cli_compile(&small_in, &p); judge(&mut o, "fresh-path", &out, &p, &want_small, &small.src);
+        // (b) path occupied by 64 KiB of filler
+        let p = dir.join("filler.bin"); std::fs::write(&p, vec![0xAAu8; 65536]).expect("filler");
+        let out = cli_compile(&small_in, &p); judge(&mut o, "over-64KiB-filler", &out, &p, &want_small, &small.src);
+        // (c) path occupied by a shorter file
+        let p = dir.join("short.bin"); std::fs::write(&p, b"xx").expect("short");
+        let out = cli_compile(&small_in, &p); judge(&mut o, "over-2-byte-file", &out, &p, &want_small, &small.src);
+        // (d) big then small into one path, then small again
+        if let (Some(bi), Some(b)) = (&big_in, &big) {
+            let p = dir.join("reused.bin");
+            let out = cli_compile(bi, &p); judge(&mut o, "bigger-source-first", &out, &p, &want_big, &b.src);
+            let out = cli_compile(&small_in, &p); judge(&mut o, "smaller-source-over-bigger-output", &out, &p, &want_small, &small.src);
+            let out = cli_compile(&small_in, &p); judge(&mut o, "same-source-again", &out, &p, &want_small, &small.src);
+            let out = cli_compile(bi, &p); judge(&mut o, "bigger-source-over-smaller-output", &out, &p, &want_big, &b.src);
+        }
+        let _ = std::fs::remove_dir_all(&dir);
+        o
+    }).into_iter().flatten().collect()
+}
+
 pub fn run(tier: &str) -> Report {
     let mut rep = Report::new("C03", tier, "model_checking");
     // quick: every class, D = 1 without the 65536-item counts, D = 2 with the reduced value sets;
@@ -1282,6 +1378,15 @@ pub fn run(tier: &str) -> Report {
             "what": r.failure.as_ref().unwrap().1.chars().take(300).collect::<String>(), "all_failing_values": detail["all_failing_values"], "readback": r.readback.chars().take(160).collect::<String>()}));
         rep.fail(sig.clone(), detail);
     }
+    // ---- CLI family
+    let cli = cli_family(&cls);
+    let mut cli_cases = 0u64;
+    for o in cli {
+        rep.evaluations += o.evals; rep.traces_validated += o.evals; cli_cases += o.evals;
+        rep.outcome(if o.fails.is_empty() { "cli:ok" } else { "cli:VIOLATION" });
+        for (sig, d) in o.fails { rep.fail(sig, d); }
+    }
+    rep.extra.insert("cli_family_runs".into(), json!(cli_cases));
     rep.extra.insert("witness_table".into(), json!(witness_table));
     rep.extra.insert("failure_counts".into(), json!(failure_counts));
     rep.extra.insert("rejections_of_fitting_values".into(), json!(unexpected_rejections));
@@ -1292,7 +1397,7 @@ pub fn run(tier: &str) -> Report {
 
     if not_run > 0 { rep.cap_hit = Some(format!("wall-clock cap: {not_run} of {} cases not run", n_single + pair_items.len())); }
     rep.exhaustive = not_run == 0;
-    rep.bound_completed = format!("D=1 over {} format classes x every listed field x its boundary value set ({} cases){}; counts up to {}",
+    rep.bound_completed = format!("CLI family: every class through the real command line into fresh / occupied (longer, shorter, earlier output) paths, bytes on disk == in-memory bytes; D=1 over {} format classes x every listed field x its boundary value set ({} cases){}; counts up to {}",
         cls.len(), n_single, format!("; D=2 over all field pairs with {} value sets ({} cases)", if extra { "the full non-heavy boundary" } else { "reduced" }, pair_items.len()),
         if thorough { "65537 items" } else { "257 items (65535..65537 only in thorough)" });
     rep.assumptions = vec![
@@ -1314,6 +1419,14 @@ pub fn replay(detail: &Value) -> i32 {
     let Some(cname) = detail["class"].as_str() else { println!("replay: no class in detail"); return 2; };
     let cls = classes(true);
     let Some(cl) = cls.iter().find(|c| c.name == cname) else { println!("replay: unknown class {cname}"); return 2; };
+    if detail["family"] == "cli" {
+        let one: Vec<Class> = cls.iter().filter(|c| c.name == cname).cloned().collect();
+        let outs = cli_family(&one);
+        let mut n = 0;
+        for o in outs { for (sig, d) in o.fails { println!("STILL FAILS: {sig}\n  {}", d["what"]); n += 1; } }
+        drive::cleanup_scratch();
+        return if n > 0 { 1 } else { println!("passes now"); 0 };
+    }
     let devs: Vec<Dev> = detail["devs"].as_array().map(|a| a.iter().filter_map(|d| Some(Dev { field: d["field"].as_str()?.to_string(), value: d["value"].as_i64()? })).collect()).unwrap_or_default();
     let r = render(cl, &devs);
     println!("class {} ({:?} {}), deviations: {:?}", cl.name, cl.kind, cl.game.as_str(), devs.iter().map(|d| format!("{}={}", d.field, d.value)).collect::<Vec<_>>());
